@@ -4,10 +4,10 @@ Require Import Rapid.Model.Base Rapid.Model.Syntax Rapid.Model.Monad Rapid.Model
   Rapid.Model.Engine Rapid.Model.Pexp Rapid.Model.Groups.
 
 (* canonical form of a failure site: class + node id, as the harness reads it off a Go traceback *)
-Inductive scls := CU | CTop | CLate | CRI | CRC | CRA | CNV | CInt.
+Inductive scls := CU | CTop | CLate | CRI | CRC | CRA | CNV | CInt | CCF.
 Definition scls_eqb (a b : scls) : bool :=
   match a, b with
-  | CU, CU | CTop, CTop | CLate, CLate | CRI, CRI | CRC, CRC | CRA, CRA | CNV, CNV | CInt, CInt => true
+  | CU, CU | CTop, CTop | CLate, CLate | CRI, CRI | CRC, CRC | CRA, CRA | CNV, CNV | CInt, CInt | CCF, CCF => true
   | _, _ => false
   end.
 Definition canon_site (s : site) : scls * nat :=
@@ -20,6 +20,7 @@ Definition canon_site (s : site) : scls * nat :=
   | SRepeatAction id => (CRA, id)
   | SNoValid id => (CNV, id)
   | SInternal _ => (CInt, O)
+  | SCustomFOE => (CCF, O)
   end.
 
 Inductive ores :=
@@ -37,7 +38,7 @@ Definition ores_eqb (a b : ores) : bool :=
   | ROk, ROk => true
   | RInvalid x, RInvalid y => msg_eqb x y
   | RStop x c i, RStop y d j | RPanic x c i, RPanic y d j =>
-      msg_eqb x y && scls_eqb c d && (match c with CInt => true | _ => Nat.eqb i j end)
+      msg_eqb x y && scls_eqb c d && (match c with CInt | CCF => true | _ => Nat.eqb i j end)
   | _, _ => false
   end.
 
